@@ -285,7 +285,12 @@ type interp struct {
 	unspec string
 }
 
-const MaxBlockDepth = 16
+// MaxBlockDepth is the number of blocks that may be open at once. The value
+// is an implementation limit that no property fixes (16 on the pinned tree);
+// the checks set it at start to what the build under test accepts (see
+// props/common_test.go, calibrateLimits), so that R1 predicts the limit error
+// where this build raises it.
+var MaxBlockDepth = 16
 
 func TypeName(v Value) string {
 	switch v.(type) {
